@@ -13,7 +13,7 @@ use uom::si::time::second;
 pub fn def() -> PropDef {
     PropDef {
         id: "C18",
-        rule: "inputs: every tabulated time of each of the 92 z slices exactly and +-1 ulp (exhaustive: every knot), the midpoint of every knot interval, the first/last knot, pairs (t, t + 8 ns) at every knot and at generated times, uniform (z, t) in [-1.3, 1.3] m x [-1e-6, 5e-6] s, every slice bound +-1 ulp with both signs, z = +-0; oracle: the harness's own reader of drift_1T_70Ar_30CO2.json (slice = first bound >= |z|; Ok iff |z| <= 1.152 and t_first <= t <= t_last inclusive, with the matching error variant otherwise) agrees on Ok/Err and the error kind; on Ok r within [r_min, r_max] of the slice, r equals the independent linear interpolation within 1e-12 m, r(z,t) == r(-z,t) by bits, r at knot j == tabulated r_j within 1e-12 m, r non-increasing in t, phi_out == phi_in - L with 0 <= L <= max L of the slice and L equal to the independent interpolation within 1e-12; |r(t + 8 ns) - r(t)| < 0.5 mm; non-trivial = successful lookups within 1 ulp of a knot or slice bound, and the (t, t + 8 ns) pairs; distinct by (slice, time bits)",
+        rule: "inputs: every tabulated time of each of the 92 z slices exactly and +-1 ulp (exhaustive: every knot), the midpoint of every knot interval, the first/last knot, pairs (t, t + 8 ns) at every knot and at generated times, uniform (z, t) in [-1.3, 1.3] m x [-1e-6, 5e-6] s, every slice bound +-1 ulp with both signs, z = +-0; oracle: the harness's own reader of drift_1T_70Ar_30CO2.json (slice = first bound >= |z|; Ok iff |z| <= 1.152 and t_first <= t <= t_last inclusive, with the matching error variant otherwise) agrees on Ok/Err and the error kind; on Ok r within [r_min, r_max] of the slice, r equals the independent linear interpolation within 1e-12 m, r(z,t) == r(-z,t) by bits, r at knot j == tabulated r_j within 1e-12 m, r non-increasing in t, phi_out == phi_in - L modulo a full turn (phi_in = a wire azimuth, every case in four on the first or last eight wires where L can exceed the azimuth, plus 0, 1e-9, 2 pi - 1e-9) with 0 <= L <= max L of the slice and L equal to the independent interpolation within 1e-12; |r(t + 8 ns) - r(t)| < 0.5 mm; non-trivial = successful lookups within 1 ulp of a knot or slice bound, and the (t, t + 8 ns) pairs; distinct by (slice, time bits)",
         assumptions: &[
             "KNOWN FINDING D6: the shipped table has adjacent-knot radius steps of 0.50-0.66 mm in the first knots of most slices; the lookup interpolates them faithfully, so the literal 0.5 mm clause fails for pairs overlapping those intervals. Those (slice, knot) intervals are listed in known/C18-steps.json; a pair that breaks 0.5 mm elsewhere, or by more than the tabulated step, is a VIOLATION",
         ],
@@ -83,7 +83,16 @@ fn listed_steps(dir: &str) -> Vec<(usize, usize, f64)> {
 
 fn point(z: f64, t: f64, listed: &[(usize, usize, f64)], ev: &mut Ev) -> Outcome {
     ev.eval();
-    let phi_in = 1.0 + (mix(z.to_bits(), t.to_bits()) % 1000) as f64 / 300.0;
+    // avalanche azimuths are wire azimuths; the first and last wires matter
+    // because the correction can exceed the azimuth there
+    let h = mix(z.to_bits(), t.to_bits());
+    let two_pi = 2.0 * std::f64::consts::PI;
+    let phi_in = match h % 8 {
+        0 => two_pi * ((h >> 8) % 8) as f64 / 256.0 + two_pi / 512.0,
+        1 => two_pi * (248 + (h >> 8) % 8) as f64 / 256.0 + two_pi / 512.0,
+        2 => [0.0, 1e-9, 0.01, 0.1, two_pi - 1e-9, two_pi - 0.01][((h >> 8) % 6) as usize],
+        _ => two_pi * ((h >> 8) % 256) as f64 / 256.0 + two_pi / 512.0,
+    };
     let got = lookup(z, t, phi_in);
     let want = expect(z, t);
     match (&got, &want) {
@@ -98,7 +107,11 @@ fn point(z: f64, t: f64, listed: &[(usize, usize, f64)], ev: &mut Ev) -> Outcome
             let (rmin, rmax) = s.knots.iter().fold((f64::INFINITY, f64::NEG_INFINITY), |(a, b), k| (a.min(k.1), b.max(k.1)));
             ensure!(*r >= rmin - 1e-15 && *r <= rmax + 1e-15, "drift-radius-range", "z = {z}, t = {t:e}: r = {r} outside [{rmin}, {rmax}]");
             ensure!((r - wr).abs() <= 1e-12, "drift-interpolation", "z = {z}, t = {t:e}: r = {r}, independent interpolation {wr}");
-            let l = phi_in - phi_out;
+            // the same angle modulo a full turn (a result wrapped into [0, 2 pi) is as good as an unwrapped one)
+            let l = (phi_in - phi_out + std::f64::consts::PI).rem_euclid(two_pi) - std::f64::consts::PI;
+            if phi_in < lmax_of(s) {
+                ev.label("azimuth-smaller-than-the-largest-correction");
+            }
             let lmax = s.knots.iter().fold(0.0f64, |a, k| a.max(k.2));
             ensure!(l >= -1e-12 && l <= lmax + 1e-12, "drift-lorentz-range", "z = {z}, t = {t:e}: phi_in - phi_out = {l}, tabulated range [0, {lmax}]");
             ensure!((l - wl).abs() <= 1e-9, "drift-lorentz", "z = {z}, t = {t:e}: Lorentz correction {l}, independent interpolation {wl}");
@@ -126,6 +139,10 @@ fn point(z: f64, t: f64, listed: &[(usize, usize, f64)], ev: &mut Ev) -> Outcome
         }
     }
     Ok(())
+}
+
+fn lmax_of(s: &Slice) -> f64 {
+    s.knots.iter().fold(0.0f64, |a, k| a.max(k.2))
 }
 
 fn ulp(x: f64, up: bool) -> f64 {
@@ -185,7 +202,7 @@ fn run(r: &Run) {
     });
     // uniform
     let seed = r.seed;
-    r.enumerate("uniform", r.tier.pick(300_000, 20_000_000), move |i, ev| {
+    r.enumerate("uniform", r.tier.pick(8_000_000, 100_000_000), move |i, ev| {
         let u = |k: u64| (mix(seed ^ k, i) >> 11) as f64 / (1u64 << 53) as f64;
         let z = match i % 16 {
             0 => 0.0,
